@@ -226,6 +226,44 @@ theorem newSpecialSymbol_rel {a b : Shared D L} (h : MetaEq a b) (sym : Sym) :
   · rfl
   · trivial
 
+theorem openSymbol_rel {a b : Shared D L} (h : MetaEq a b) : StepRel (openSymbol env a) (openSymbol env b) := by
+  obtain ⟨t, k, rfl⟩ := h.out
+  unfold openSymbol
+  rw [newSymbol_sm, candidates_sm]
+  cases Selecting.candidates env (newSymbol a) a with
+  | ok cs =>
+    cases cs with
+    | nil => prel_leaf
+    | cons c cs => prel_leaf
+  | panic p => rfl
+  | outOfFuel => trivial
+
+theorem openSpecialSymbol_rel {a b : Shared D L} (h : MetaEq a b) (sym : Sym) :
+    StepRel (openSpecialSymbol env a sym) (openSpecialSymbol env b sym) := by
+  have hn := newSpecialSymbol_rel h sym
+  unfold openSpecialSymbol
+  rcases hn.cases with ⟨⟨x, u⟩, ⟨y, v⟩, h1, h2, hm, hv⟩ | ⟨p, h1, h2⟩ | ⟨h1, h2⟩ <;> rw [h1, h2]
+  · dsimp only at hm hv
+    subst hv
+    obtain ⟨t, k, rfl⟩ := hm.out
+    cases u with
+    | toState st =>
+      cases st with
+      | selecting s =>
+        dsimp only
+        rw [candidates_sm]
+        cases Selecting.candidates env s x with
+        | ok cs =>
+          cases cs with
+          | nil => exact (⟨(rfl : _ = _), rfl⟩ : PRel _ _)
+          | cons c cs => prel_leaf
+        | panic p => rfl
+        | outOfFuel => trivial
+      | _ => prel_leaf
+    | spin b => prel_leaf
+  · rfl
+  · trivial
+
 theorem startSelecting_rel {a b : Shared D L} (h : MetaEq a b) : StepRel (startSelecting env a) (startSelecting env b) := by
   obtain ⟨t, k, rfl⟩ := h.out
   unfold startSelecting
@@ -233,7 +271,7 @@ theorem startSelecting_rel {a b : Shared D L} (h : MetaEq a b) : StepRel (startS
   repeat' split2
   all_goals first
     | exact openPhrase_rel env (by meq)
-    | exact newSpecialSymbol_rel (by meq) _
+    | exact openSpecialSymbol_rel env (by meq) _
     | prel_leaf
 
 theorem startSelectingOrInputSpace_rel {a b : Shared D L} (h : MetaEq a b) :
@@ -244,7 +282,7 @@ theorem startSelectingOrInputSpace_rel {a b : Shared D L} (h : MetaEq a b) :
   repeat' split2
   all_goals first
     | exact openPhrase_rel env (by meq)
-    | exact newSpecialSymbol_rel (by meq) _
+    | exact openSpecialSymbol_rel env (by meq) _
     | prel_leaf
 
 /-! ### learning: the only readers of the clock, the only writers of the flush level -/
@@ -319,6 +357,7 @@ theorem enteringCtrlDigit_rel {a b : Shared D L} (h : MetaEq a b) (c : Nat) :
   repeat' split2
   all_goals first
     | exact learnTrans_rel (learnInRangeNotify_rel env (by meq) _ _)
+    | exact openSymbol_rel env (by meq)
     | prel_leaf
 
 theorem autoLearn_flush_rel (hE : MetaBlindEnv env) {a b : Shared D L} (h : MetaEq a b) (pending : Text) (syls : List Sym) :
@@ -427,6 +466,7 @@ theorem enteringDefault_rel {a b : Shared D L} (h : MetaEq a b) (ev : KeyEvent) 
     | exact withCom_absorb_rel (by meq) _
     | exact inputChar_rel (by meq) _
     | exact chineseFallback_rel (by meq) _
+    | exact openSymbol_rel env (by meq)
     | prel_leaf
 
 theorem enteringBackspace_rel {a b : Shared D L} (h : MetaEq a b) :
